@@ -1,6 +1,7 @@
 import Driver.Util
 import DiskfsModel.Model.Repro
 import DiskfsModel.Generated.Detect
+import DiskfsModel.Core.Crc
 namespace Driver.Repro
 open Diskfs Diskfs.Repro Driver
 
@@ -22,9 +23,22 @@ def packCase (args : List String) : String :=
 
 /-- repro.create kind= size=  →  ws=off:len,... of Create relative to the volume start -/
 def createCase (args : List String) : String :=
-  match createShape params ((arg args "kind") == some "fat16") (argNatD args "size") with
+  match (if (arg args "kind") == some "fat32" then createShape32 params (argNatD args "size")
+         else createShape params ((arg args "kind") == some "fat16") (argNatD args "size")) with
   | none => "refused"
   | some sh => "ws=" ++ ",".intercalate (sh.map fun p => s!"{p.1}:{p.2}")
+
+/-- repro.image kind= size= label=<11 bytes hex> epoch=  →  ws=off:len:crc32,... : every WriteAt of Create with
+    a CRC32 of its data, from the model's whole-image function -/
+def imageCase (args : List String) : String :=
+  let k := match arg args "kind" with
+    | some "fat12" => FatKind.f12
+    | some "fat16" => FatKind.f16
+    | _ => FatKind.f32
+  let label := ((argHex args "label").getD []).map (·.toNat)
+  match createImage params k (argNatD args "size") label (argNatD args "epoch") with
+  | none => "refused"
+  | some ws => "ws=" ++ ",".intercalate (ws.map fun w => s!"{w.off}:{w.data.length}:{crc32 w.data}")
 
 end Driver.Repro
 
@@ -32,4 +46,5 @@ def main : IO Unit := Driver.runLoop fun op args =>
   match op with
   | "repro.pack" => Driver.Repro.packCase args
   | "repro.create" => Driver.Repro.createCase args
+  | "repro.image" => Driver.Repro.imageCase args
   | _ => "unknown-op"
